@@ -306,6 +306,12 @@ Proof.
       split; [reflexivity | apply canon_Inv; apply Z.pow_pos_nonneg; lia].
 Qed.
 
+Theorem from_int_asis_spec v : from_int_asis v = canon v 1 /\ Inv (from_int_asis v).
+Proof.
+  assert (H : Inv (v, 1)) by (split; [cbn; lia | apply Z.gcd_1_r]).
+  split; [|exact H]. symmetry. apply (canon_of_Inv (v, 1) H).
+Qed.
+
 (* ---------------------------------------------------------------- Sum / Product *)
 (** rational/src/iter.rs exists as a file but is not declared in lib.rs: RBig has no Sum / Product impl *)
 Lemma iter_not_a_module : gen_ratio_iter_is_a_module = false.
